@@ -385,7 +385,14 @@ class Rat:
             o = as_rat(o)
         except Exception:
             return NotImplemented
+        if self.den.t == o.den.t:
+            return self.num.t == o.num.t
+        if self.den.is_const() and o.den.is_const():
+            return False   # both normalised to denominator 1
         return (self.num * o.den) == (o.num * self.den)
+
+    def struct_eq(self, o):
+        return self.num.t == o.num.t and self.den.t == o.den.t
 
     def __hash__(self):
         return hash((self.num, self.den))
@@ -889,6 +896,14 @@ class PW:
         if self.is_leaf():
             return hash(self.leaf)
         return hash((self.cond, self.a, self.b))
+
+    def struct_eq(self, o):
+        """cheap structural identity (sufficient, not necessary, for equality)"""
+        if self.is_leaf() != o.is_leaf():
+            return False
+        if self.is_leaf():
+            return self.leaf.struct_eq(o.leaf)
+        return self.cond == o.cond and self.a.struct_eq(o.a) and self.b.struct_eq(o.b)
 
     def key(self):
         if self.is_leaf():
